@@ -20,7 +20,7 @@ static std::vector<Json>& c14_table(){
   static std::vector<Json> tab;
   if(!tab.empty()) return tab;
   static const char* bin[]={"add","sub","icomm","acomm","evol","eprod","eop"};
-  for(int d1=2;d1<=6;d1++) for(int d2=2;d2<=6;d2++) if(d1!=d2) for(int variant=0;variant<2;variant++) for(int e=0;e<11;e++){
+  for(int d1=2;d1<=6;d1++) for(int d2=2;d2<=6;d2++) if(d1!=d2) for(int variant=0;variant<2;variant++) for(int e=0;e<13;e++){
     Json ops=Json::array();
     op_make(ops,0,d1,variant==1,0); op_fill(ops,0,d1*10+d2,6);
     op_make(ops,1,d2,variant==1,1); op_fill(ops,1,d2*10+d1,1);
@@ -29,7 +29,8 @@ static std::vector<Json>& c14_table(){
     if(e<7){ o["op"]="stmt"; o["how"]=(e%3==0)?"=":(e%3==1?"+=":"-="); o["expr"]=bin[e]; o["t"]=2; o["a"]=0; o["b"]=1; o["ca"]=0; o["cb"]=0; o["x"]=0.5; o["flags"]=0; o["fn"]=0; o["nest"]=0; }
     else if(e==7||e==8){ o["op"]="compound"; o["t"]=0; o["s"]=1; o["sign"]=e==7?"+":"-"; }
     else if(e==9){ o["op"]="dot"; o["a"]=0; o["b"]=1; }
-    else { o["op"]="rotate_m"; o["a"]=0; o["d"]=d2; o["vs"]=5; }
+    else if(e==10){ o["op"]="rotate_m"; o["a"]=0; o["d"]=d2; o["vs"]=5; }
+    else { o["op"]="stmt"; o["how"]=e==11?"=":"+="; o["expr"]="nested"; o["nest"]=e==11?10:11; o["t"]=2; o["a"]=0; o["b"]=1; o["ca"]=0; o["cb"]=0; o["x"]=0.5; o["flags"]=0; o["fn"]=0; }
     ops.push(o);
     tab.push_back(ops);
   }
